@@ -1081,6 +1081,7 @@ void PostProcessor::getNodalD(CComplex *d, int N) const
                     const auto bprop = reinterpret_cast<CHMaterialProp*>(problem->blockproplist[elem->blk].get());
                     CComplex kn=bprop->GetK(nodej->T);
                     d[i]= Re(kn)*Ex + I*Im(kn)*Ey;
+                    d[i]/=AECF(elem,meshnodes[j]->CC());
                 }
                     break;
                 default:
